@@ -18,6 +18,11 @@ Definition ↔ Rust:
   `commands/rewrite.rs` (a root that is itself excluded leaves the snapshot as it is)
 * `repNode`, `repList`, `repairRoot`           — `commands/repair/snapshots.rs RepairState` driven by `modify_tree`
   (a tree is re-saved only if some node reports a change; file size corrections alone do not)
+* `blobStep`, `blobLoop`                       — the `for blob in node.content` loop of `RepairState::process_node` as written:
+  state `(file_changed, new_content, new_size)`; a missing blob SETS the flag (it is never cleared again), an indexed
+  one is kept and its `data_length` added (`Lemmas.repNode_file_loop`: `repNode` on a file is exactly this loop).
+  `blobStepLastOnly` / `blobLoopLastOnly`: the variant that ASSIGNS the flag for every blob (seeded change C12-4) —
+  only the last blob decides; kept for the witness in `Props.C12`
 * `copyStep`                                   — `commands/copy.rs copy`: needed blobs = reachable and not in the
   destination index; data copied first, then trees, through packers sharing one typed `Indexer.indexed` set
   (`copyStepUntyped`: the code before the repair c65a201)
@@ -164,6 +169,24 @@ def repList (ix : Idx) (l : List RT) : List RT × Bool :=
   let r := repNodes ix l
   if r.2 then (r.1, true) else (l, false)
 end
+
+/-- one pass of the blob loop of `process_node` (`NodeType::File`): `(file_changed, new_content, new_size)` -/
+def blobStep (ix : Idx) (st : Bool × List Nat × Nat) (d : Nat) : Bool × List Nat × Nat :=
+  match ix d with
+  | none => (true, st.2.1, st.2.2)
+  | some len => (st.1, st.2.1 ++ [d], st.2.2 + len)
+
+def blobLoop (ix : Idx) (content : List Nat) : Bool × List Nat × Nat :=
+  content.foldl (blobStep ix) (false, [], 0)
+
+/-- NOT the code: the flag is assigned on every blob instead of accumulated (only the last blob decides) -/
+def blobStepLastOnly (ix : Idx) (st : Bool × List Nat × Nat) (d : Nat) : Bool × List Nat × Nat :=
+  match ix d with
+  | none => (true, st.2.1, st.2.2)
+  | some len => (false, st.2.1 ++ [d], st.2.2 + len)
+
+def blobLoopLastOnly (ix : Idx) (content : List Nat) : Bool × List Nat × Nat :=
+  content.foldl (blobStepLastOnly ix) (false, [], 0)
 
 /-- the snapshot: `none` = left as it is ("snapshot is ok"), `some t` = replaced by a snapshot with tree `t` -/
 def repairRoot (ix : Idx) (readable : Bool) (root : List RT) : Option (List RT) :=
